@@ -73,6 +73,19 @@ CHECKS = {
              "characters. The regex engine is bound by exhaustive replay, not modelled.",
         technique="TLA+ model checking (TLC) of the Quotes machine + exhaustive string replay + on/off differential trace validation (TypoTrace.tla)",
         design="§6 C08, §12"),
+    "C09": dict(
+        level="model_checking",
+        text="spec/Typography.tla transcribes ellipses() as a machine over a 7-symbol alphabet (ELLIPSIS_PATTERN: line start or word/quote "
+             "prefix, optional spaces, three dots, optional punctuation, trailing spaces, boundary test, inserted spaces); TLC checks "
+             "EllipsisProp (undoing the rewrite gives the same text for input and output), OnlyThreeDotRuns and idempotence for every "
+             "string up to the bound. Every string is run through the real ellipses(); spec/TypoTrace.tla validates each real pair against "
+             "the machine and the property. Document level: (ellipses off, on) pairs for 44 documents under the other option settings: "
+             "normalised marko trees of the two outputs are identical once text nodes pass through the inverse mapping (same structure, "
+             "same code/tags/HTML/URLs, same prose); applying the option again changes nothing.",
+        note="Trusted: the real marko parse of both outputs (harness/project.py). Idempotence at document level is judged without smart "
+             "quotes in the option set (their own non-idempotence is C02's finding D37).",
+        technique="TLA+ model checking (TLC) of the Ellipses machine + exhaustive string replay + on/off differential trace validation (TypoTrace.tla)",
+        design="§6 C09, §12"),
     "C11": dict(
         level="model_checking",
         text="TLC explores every behaviour of spec/SentenceWrap.tla (one action per sentence of line_wrap_by_sentence, inner greedy "
